@@ -183,7 +183,7 @@ def sweep_pairs(quick):
 
 NAME_FAMILIES = {"dots": ["KICK.1", "KICK.2", "V1.5 PAD"], "hash": ["#1", "#2", "A#B"], "plus": ["A+B", "A+C", "+"],
                  "dash": ["A-", "B-", "-C"], "dotend": ["A.", "B.", ".C"], "digits": ["1", "2", "10"],
-                 "spaces": ["A B", "A  B", "A B C"], "long12": ["ABCDEFGHIJKL", "ABCDEFGHIJKM", "ABCDEFGHIJ.L"]}
+                 "spaces": ["A B", "A  B", "A B C"], "long12": ["ABCDEFGHIJKL", "ABCDEFGHIJKM", "ABCDEFGHIJ.L"], "wavext": ["KICK", "KICK.WAV", "KICK.WAV.WAV"]}
 VOL_NAMES = ["VOL", "VOL 1.5", "V.", "#+-."]
 
 
@@ -200,6 +200,24 @@ def sweep_names(quick):
                 sec += m
             yield {"sweep": "names", "family": fam,
                    "spec": {"parts": [{"vols": [{"name": vname, "dir": [3], "files": files}]}]}}
+
+
+def sweep_slots(quick):
+    """the volume table is indexed by volume number and may have holes: every non-empty set of <=3 occupied slots out of
+    {0,1,2,3,50,98,99} (thorough: <=4), volumes stored in ascending and in descending slot order"""
+    import itertools
+    pool = (0, 1, 2, 3, 50, 98, 99)
+    for k in (1, 2, 3) if quick else (1, 2, 3, 4):
+        for slots in itertools.combinations(pool, k):
+            for rev in (False, True):
+                if rev and k == 1:
+                    continue
+                vols, sec = [], 3
+                for j, slot in enumerate(slots[::-1] if rev else slots):
+                    vols.append({"name": f"VOL{slot}", "slot": slot, "dir": [sec],
+                                 "files": [{"name": f"S{slot}", "n": 100 + slot, "chain": [sec + 1], "seq": j + 1}]})
+                    sec += 2
+                yield {"sweep": "slots", "spec": {"parts": [{"vols": vols}]}}
 
 
 def nontrivial(spec):
@@ -260,15 +278,16 @@ class Check(CheckBase):
             "2-sector directory]; (length) boundary word counts x start/end markers x chain order; (header) rate x "
             "sample id x file type x volume type; (sizes) every partition size 6..139 sectors (thorough ..399), alternately followed by a second partition; (slack) chains longer than the file needs x order x markers; (structure) partitions{1,2,3} x volumes{0,1,2} x files{0..3} x "
             "volume type x directory storage, L/R pair, non-sample siblings, trailing bytes; (pairs) all pairs of "
-            "single deviations; (names) 8 families of names using the non-letter characters of the AKAI set (. # + - digits "
-            "blanks, 12 characters) x 4 volume names, judged by content only. non-trivial = non ascending-contiguous multi-sector chain, or file filling its last "
+            "single deviations; (names) 9 families of names using the non-letter characters of the AKAI set (. # + - digits "
+            "blanks, 12 characters) x 4 volume names, judged by content only; (slots) every set of <=3 (thorough 4) occupied "
+            "volume-table slots out of {0,1,2,3,50,98,99} in both storage orders. non-trivial = non ascending-contiguous multi-sector chain, or file filling its last "
             "sector exactly, or >1 partition/volume")
     assumptions = ["independent AKAI writer (mcv/gen/akai.py) and RIFF walker are correct",
                    "names are plain and collision-free here (collisions: C05/C06)"]
 
     def shards(self):
         cases = []
-        for sw in (sweep_length, sweep_slack, sweep_sizes, sweep_header, sweep_structure, sweep_pairs, sweep_alloc, sweep_names):
+        for sw in (sweep_length, sweep_slack, sweep_sizes, sweep_header, sweep_structure, sweep_pairs, sweep_alloc, sweep_names, sweep_slots):
             cases.extend(sw(self.quick))
         self._n = len(cases)
         return self.chunk(cases, 24)
